@@ -78,7 +78,7 @@ def search_witness(unit, failure, seed):
             case = c
     if case is None:
         return dict(reproduced=False, note='no executable contract registered for this function; no witness search')
-    js, err = _call(['search', case, str(seed)], timeout=600)
+    js, err = _call(['search', case, str(seed), ','.join(getattr(unit, 'kf', {}).keys())], timeout=600)
     if js is None or 'error' in js:
         return dict(reproduced=False, note='witness search unavailable: ' + (err or js.get('error', '')))
     if js.get('found'):
